@@ -6,7 +6,7 @@ import itertools
 
 from mc.engine import hbfs, par
 from mc.engine.report import Violation
-from mc.engine.seams import reset_library
+from mc.engine.seams import reset_library, new_model
 
 import ECAgent.Core as Core
 import ECAgent.Environments as Envs
@@ -50,12 +50,12 @@ def mk(model, kind, dims, wrap=False):
 def check_shape(case):
     reset_library()
     kind, dims = case['kind'], case['dims']
-    model = Core.Model(seed=1)
+    model = new_model(seed=1)
     world = mk(model, kind, dims, case.get('wrap', False))
     if case.get('bystanders', True):
         # other grid worlds of other shapes built (and used) afterwards in the same process must not disturb this one
-        others = [Envs.GridWorld(Core.Model(seed=2), 3, 4), Envs.DiscreteWorld(Core.Model(seed=3), 2, 3, 2),
-                  Envs.LineWorld(Core.Model(seed=4), 7)]
+        others = [Envs.GridWorld(new_model(seed=2), 3, 4), Envs.DiscreteWorld(new_model(seed=3), 2, 3, 2),
+                  Envs.LineWorld(new_model(seed=4), 7)]
         for o in others:
             o.add_cell_component('v', lambda pos, cells: -1)
             o.get_cell(0)
@@ -150,7 +150,7 @@ def big_shape(case):
     and the last ones (the row lookup costs a pandas access each)."""
     reset_library()
     kind, dims = case['kind'], case['dims']
-    world = mk(Core.Model(seed=1), kind, dims, False)
+    world = mk(new_model(seed=1), kind, dims, False)
     d3 = list(dims) + [0] * (3 - len(dims))
     ext = [max(e, 1) for e in d3]
     n = ext[0] * ext[1] * ext[2]
@@ -189,10 +189,16 @@ def chunk_fn(ctx, chunk):
                 return
 
 
+# the cheap legs run once more under the runner's ambient configurations (python -O, other logger levels)
+AMBIENT_LEGS = True
+
+
 def run(ctx):
     cases = [{'leg': 'shape', 'kind': k, 'dims': d, 'wrap': w} for k, d in shapes(ctx.tier) for w in (False, True)]
     cases += [{'leg': 'big', 'kind': 'line', 'dims': [40000]}, {'leg': 'big', 'kind': 'discrete', 'dims': [0, 33000, 0]},
               {'leg': 'big', 'kind': 'discrete', 'dims': [48, 40, 36]}]
+    if ctx.small:
+        cases = [c for c in cases if c['leg'] != 'big']
     if ctx.tier == 'thorough':
         cases += [{'leg': 'big', 'kind': 'discrete', 'dims': [0, 0, 70000]}, {'leg': 'big', 'kind': 'grid', 'dims': [300, 300]},
                   {'leg': 'big', 'kind': 'discrete', 'dims': [2, 33000, 0]}]
